@@ -206,7 +206,7 @@ func TestVerifC01Rig(t *testing.T) {
 					var off int64
 					buf := make([]byte, 65536)
 					for off < total {
-						c.SetReadDeadline(time.Now().Add(20 * time.Second))
+						c.SetReadDeadline(time.Now().Add(60 * time.Second))
 						n, err := c.Read(buf[:1+lr.Intn(len(buf)-1)])
 						if n > 0 {
 							at := c01Locate(buf[:n], k, off)
@@ -263,8 +263,8 @@ func TestVerifC01Rig(t *testing.T) {
 		go func() { wg.Wait(); close(fin) }()
 		select {
 		case <-fin:
-		case <-time.After(120 * time.Second):
-			res.Note("scenario %d: application connections did not finish within 120 s", si)
+		case <-time.After(240 * time.Second):
+			res.Note("scenario %d: application connections did not finish within 240 s", si)
 			res.Stat("timeouts", 1)
 		}
 		close(stop)
